@@ -14,6 +14,7 @@ func init() {
 			"CH-SIB: Drop deletes on dropPair, Keep on !keepPair, applied to the iterated label; dropPair == keepPair as truth tables",
 			"PV-PAIR: Decolorize returns ansiRegex.ReplaceAllString(line, \"\"); CH-MAP: keep/drop parser distinguishes matchers from names for all four operators",
 			"PV-ROLE: drop/keep value matchers are built in the label (whole value) flavour from one selector; label_format writes its label only when the template ran cleanly; PV-ALIAS: no pcommon value is mutated unless created in the same function",
+			"no Delete outside the selection predicate's verdict in drop/keep; no strconv.Unquote (raw-string templates keep \r); __error__ first-wins guard of SetError",
 		},
 		NotDecided: []string{"what text/template and sprig functions compute", "whether ansiPattern matches exactly the ANSI colour sequences (regexp semantics)"},
 		Rules: func(r *Run) {
